@@ -106,6 +106,8 @@ class C10(Prop):
         off = clock.local(zone, now).utcoffset().total_seconds()
 
         def rand_epoch():
+            if r.random() < 0.04:
+                return r.choice([0, 1, 59, 60, 86399, 86400, 2 ** 31 - 1, 2 ** 31, 2 ** 32 - 61, 2 ** 32 - 1, 0x0A0A0A0A, 0x00FEF000])
             base = r.choice(inst) + r.randrange(-2 * 86400, 2 * 86400)
             return base - base % 60 if r.random() < 0.8 else base
 
@@ -114,7 +116,7 @@ class C10(Prop):
             for _ in range(n):
                 slot = r.randrange(8) if r.random() < 0.7 else r.randrange(256)
                 se = rand_epoch()
-                ee = se + r.randrange(0, 86400) if r.random() < 0.7 else rand_epoch()
+                ee = min(se + r.randrange(0, 86400), 2 ** 32 - 1) if r.random() < 0.7 else rand_epoch()
                 recs.append((slot, r.choice(EVEN_MASKS), se, ee))
             return recs
 
